@@ -1021,7 +1021,8 @@ def label_oracle(sym):
 
 
 def align_stub(P):
-    """align(arrays, **kw) as a black box: the same arrays, their data marked as aligned with the options given (axes unchanged)"""
+    """align(arrays, **kw) as a black box: new arrays whose data are marked as aligned with the options given and whose axes - along the dimension named by axis=,
+    or along all of them - are the common axis: the inputs' own labels where they agree, a new token where they differ"""
     def f(itp, a, k):
         arrays = itp.iterate(a[0])
         out = []
@@ -1029,8 +1030,27 @@ def align_stub(P):
         for x in arrays:
             if not (isinstance(x, Obj) and 'DimArray' in x.types):
                 raise Raised('TypeError')
-            out.append(mk_array(P, x.name, None, None, axes=itp.iterate(x.attrs['axes']), values=Sym('call', 'ALIGNED', (x.attrs['values'],), {'opts': opts}),
-                                attrs=x.attrs['attrs'], overrides=x.hooks.get('overrides')))
+        only = k.get('axis')
+        toks = {}
+        for x in arrays:
+            for ax in itp.iterate(x.attrs['axes']):
+                toks.setdefault(ax.attrs['name'], set()).add(render(ax.attrs['values']))
+        for x in arrays:
+            axes = []
+            for ax in itp.iterate(x.attrs['axes']):
+                d = ax.attrs['name']
+                if (only is None or only == d) and len(toks[d]) > 1:
+                    axes.append(mk_axis(d, 9, tok('COMMON_%s' % d), ax.attrs.get('attrs')))
+                else:
+                    axes.append(ax)
+            # (aligning along different dimensions commutes: the calls are recorded as a sorted set, not as a nesting)
+            done = sorted(set(x.attrs.get('_aligned', [])) | {opts})
+            base = x.attrs.get('_unaligned_values', x.attrs['values'])
+            y = mk_array(P, x.name, None, None, axes=axes, values=Sym('call', 'ALIGNED', (base,) + tuple(Sym('tok', '[%s]' % o) for o in done), {}),
+                         attrs=x.attrs['attrs'], overrides=x.hooks.get('overrides'))
+            y.attrs['_aligned'] = done
+            y.attrs['_unaligned_values'] = base
+            out.append(y)
         return out
     return f
 
